@@ -22,7 +22,7 @@ MANIFEST = {
             "flat top (never before it), gz.delay and the ramps are on the gradient raster, and the rephaser area "
             "is minus (flat area after the centre + half the ramp area).  The arithmetic expressions the theorems "
             "are about are re-translated from the five maker sources on every run; the extracted model is run "
-            "against the implementation on ~1000 (quick) / 30000 (thorough) calls and the property is evaluated "
+            "against the implementation on ~1000 (quick) / 30000 (thorough) calls (pulses of up to 4000 / 8000 samples; the runner executes fast forms proved equal to the specification forms, C13_fast_form_*) and the property is evaluated "
             "with exact Fractions on every returned event.",
     'note': 'Trusted: Coq kernel; translator patterns for the makers (expressions translated, guards compared as '
             'text); extraction + driver; the envelope functions (np.sinc, np.exp, np.cos), np.pi and binary64 '
@@ -46,7 +46,11 @@ RULE = ('calls drawn per maker (sinc, gauss, block, arbitrary, adiabatic timing)
 TRUSTED = ['RF envelope functions (np.sinc, np.exp, np.cos), np.pi and binary64 rounding are outside the model: the '
            'envelope is an arbitrary list in the theorems; the correspondence feeds the implementation\'s own samples',
            'make_trapezoid is modelled locally for the two argument sets used by the RF makers (C11 models it in full)']
-ASSUMPTIONS = ['slice-gradient theorems assume: gradient raster > 0 and >= eps (1e-9 s), max_grad > 0, duration >= 0; flip theorems '
+ASSUMPTIONS = ['a one-raster ceil() disagreement between binary64 and exact arithmetic is accepted only when the implementation\'s '
+               'k = gz.delay/raster lies in the 1e-6 bracket of C13_ceil_threshold_bracket, which proves every clause for either outcome',
+               'make_adiabatic_pulse documents no peak amplitude (adiabaticity has no stated relation to the returned magnitude): '
+               'no amplitude clause is claimed for it; grid, shape_dur, delay, use and slice gradients are',
+               'slice-gradient theorems assume: gradient raster > 0 and >= eps (1e-9 s), max_grad > 0, duration >= 0; flip theorems '
                'assume sum(envelope) != 0, pi > 0; make_arbitrary_rf delivers the flip angle for a user signal of positive sum '
                '(minus the flip angle for a negative sum: abs() in its scaling) - recorded as a finding, not as a failure',
                'ceil()/round() decisions are taken on exact rationals by the model and on binary64 by the code: when the '
